@@ -80,6 +80,7 @@ def main(prop, prop_v, tier, seed, replay, scenarios, own_prefixes, known_prefix
         res.violation(p, "model extraction/build failed", no_input=True)
     stats_total, nhist, ndiff, nmon, nknown = {}, 0, 0, 0, 0
     samples, nontrivial = [], set()
+    first_diff = None
     if hexe and mexe:
         os.makedirs(os.path.join(L.BUILD, "hist"), exist_ok=True)
         jobs = []
@@ -157,12 +158,15 @@ def main(prop, prop_v, tier, seed, replay, scenarios, own_prefixes, known_prefix
                         res.violation(p, "monitor: " + what[:200])
             if diffs:
                 ndiff += len(diffs)
-                if nmon == 0 and not any(v[2] for v in res.violations if v[1]):
+                if first_diff is None:
                     (k, j, a, b) = diffs[0]
-                    hist = hi[k] if 0 <= k < len(hi) else []
-                    p = L.write_replay(prop, "correspondence.txt",
-                                       "sequencer model <-> implementation correspondence no longer checks (%d histories differ); the monitors of %s found no history on which the property itself fails.\nfirst difference (history line %d):\nimpl : %s\nmodel: %s\n\nhistory:\n%s\n" % (len(diffs), prop, j, a, b, "\n".join(hist)))
-                    res.violation(p, "model/implementation correspondence broken (%d histories)" % len(diffs), no_input=True)
+                    first_diff = (j, a, b, hi[k] if 0 <= k < len(hi) else [])
+        if first_diff and nmon == 0:
+            # reported only when no monitor of this run found a history on which the property itself fails
+            (j, a, b, hist) = first_diff
+            p = L.write_replay(prop, "correspondence.txt",
+                               "sequencer model <-> implementation correspondence no longer checks (%d histories differ); the monitors of %s found no history on which the property itself fails.\nfirst difference (history line %d):\nimpl : %s\nmodel: %s\n\nhistory:\n%s\n" % (ndiff, prop, j, a, b, "\n".join(hist)))
+            res.violation(p, "model/implementation correspondence broken (%d histories)" % ndiff, no_input=True)
     # extraction cross-check: the shortest non-probe histories are evaluated inside Coq as well
     xc = {"histories": 0, "events": 0}
     if hexe and mexe and not replay:
